@@ -135,6 +135,10 @@ function doOp1(op) {
   case "define":
     if (R) return dv(Reflect.defineProperty(o, k, mkDesc(op.d)));
     return dv(Object.defineProperty(o, k, mkDesc(op.d)));
+  case "defprops":
+    var props = {};
+    for (var pi = 0; pi < op.l.length; pi++) O_dp(props, pv(op.l[pi].k), {value: mkDesc(op.l[pi].d), enumerable: true, configurable: true, writable: true});
+    return dv(Object.defineProperties(o, props));
   case "get":
     if (R) return dv(Reflect.get(o, k, recv));
     return dv(o[k]);
@@ -174,6 +178,7 @@ function doOp1(op) {
     if (R) return dv(Reflect.setPrototypeOf(o, p));
     return dv(Object.setPrototypeOf(o, p));
   case "forin": var ks2 = []; for (var kk in o) push(ks2, kk); return keysStr(ks2);
+  case "forin2": var ks3 = [], first3 = true; for (var k3 in o) { push(ks3, k3); if (first3) { first3 = false; for (var j3 in o) {} Reflect.deleteProperty(o, k3); } } return keysStr(ks3);
   case "assign": return dv(Object.assign(o, OBJ[op.p]));
   }
   throw new Error("unknown op " + op.op);
